@@ -401,6 +401,10 @@ func (r *CPUSuppress) adjustByCPUSet(cpusetQuantity *resource.Quantity, nodeCPUI
 	if cpus-int32(len(oldCPUSet)) > beMaxIncreaseCpuNum {
 		cpus = int32(len(oldCPUSet)) + beMaxIncreaseCpuNum
 	}
+	if len(lsrCpus)+len(lsCpus) == 0 {
+		klog.Warningf("suppressBECPU skipped, no cpu is available for best-effort pods, all cpus are reserved or exclusively allocated")
+		return
+	}
 	var beCPUSet []int32
 	lsrCpuNums := int32(int(cpus) * len(lsrCpus) / (len(lsrCpus) + len(lsCpus)))
 
